@@ -486,6 +486,165 @@ def _coalesce_aliases(fn: ast.FunctionDef) -> bool:
     return changed
 
 
+def _namedtuple_table(tree: ast.Module) -> Dict[str, List[str]]:
+    out: Dict[str, List[str]] = {}
+    for st in tree.body:
+        if isinstance(st, ast.Assign) and len(st.targets) == 1 and isinstance(st.targets[0], ast.Name) and isinstance(st.value, ast.Call):
+            f = st.value.func
+            nm = f.id if isinstance(f, ast.Name) else (f.attr if isinstance(f, ast.Attribute) else "")
+            if nm == "namedtuple" and len(st.value.args) >= 2:
+                a = st.value.args[1]
+                if isinstance(a, (ast.List, ast.Tuple)) and all(isinstance(e, ast.Constant) and isinstance(e.value, str) for e in a.elts):
+                    out[st.targets[0].id] = [e.value for e in a.elts]
+                elif isinstance(a, ast.Constant) and isinstance(a.value, str):
+                    out[st.targets[0].id] = a.value.replace(",", " ").split()
+        elif isinstance(st, ast.ClassDef) and any((isinstance(b, ast.Name) and b.id == "NamedTuple") or (isinstance(b, ast.Attribute) and b.attr == "NamedTuple") for b in st.bases):
+            if not any(isinstance(x, ast.FunctionDef) for x in st.body):
+                out[st.name] = [x.target.id for x in st.body if isinstance(x, ast.AnnAssign) and isinstance(x.target, ast.Name)]
+    return out
+
+
+def _scalar_replace_records(fn: ast.FunctionDef, nts: Dict[str, List[str]]) -> bool:
+    """Scalar replacement of a local named-tuple record (and of a local list of such
+    records that is only appended to and projected field-wise):
+
+        r = NT(*call)                 r__a, r__b = call
+        r = NT(a=x, b=y) / NT(x, y)   r__a = x; r__b = y
+        r = r._replace(b=v)           r__b = v
+        r.a                           r__a
+        rs = []                       rs__a = []; rs__b = []
+        rs.append(r)                  rs__a.append(r__a); rs__b.append(r__b)
+        [q.a for q in rs]             rs__a
+
+    Applied only when every occurrence of the names fits one of these patterns
+    (the record never escapes as a whole)."""
+    if not nts:
+        return False
+    # candidate record variables: assigned from NT(...) somewhere
+    rec_vars: Dict[str, str] = {}
+    for x in ast.walk(fn):
+        if isinstance(x, ast.Assign) and len(x.targets) == 1 and isinstance(x.targets[0], ast.Name) and isinstance(x.value, ast.Call) and isinstance(x.value.func, ast.Name) and x.value.func.id in nts:
+            rec_vars[x.targets[0].id] = x.value.func.id
+    if not rec_vars:
+        return False
+    changed = False
+    for r, nt in list(rec_vars.items()):
+        fields = nts[nt]
+        # list variables that receive r via append
+        lists = {x.func.value.id for x in ast.walk(fn) if isinstance(x, ast.Call) and isinstance(x.func, ast.Attribute) and x.func.attr == "append" and isinstance(x.func.value, ast.Name)
+                 and len(x.args) == 1 and isinstance(x.args[0], ast.Name) and x.args[0].id == r}
+        ok = True
+        # classify every occurrence of r
+        parents = {}
+        for p_ in ast.walk(fn):
+            for c_ in ast.iter_child_nodes(p_):
+                parents[c_] = p_
+        for x in ast.walk(fn):
+            if isinstance(x, ast.Name) and x.id == r:
+                par = parents.get(x)
+                if isinstance(par, ast.Attribute) and par.value is x and (par.attr in fields or par.attr == "_replace"):
+                    if par.attr == "_replace":
+                        call = parents.get(par)
+                        asg = parents.get(call)
+                        if not (isinstance(call, ast.Call) and call.func is par and not call.args and all(k.arg in fields for k in call.keywords)
+                                and isinstance(asg, ast.Assign) and len(asg.targets) == 1 and isinstance(asg.targets[0], ast.Name) and asg.targets[0].id == r):
+                            ok = False
+                    continue
+                if isinstance(par, ast.Assign) and x in par.targets:
+                    v = par.value
+                    if isinstance(v, ast.Call) and isinstance(v.func, ast.Name) and v.func.id == nt:
+                        if len(v.args) == 1 and isinstance(v.args[0], ast.Starred) and not v.keywords:
+                            continue
+                        if not any(isinstance(a, ast.Starred) for a in v.args) and len(v.args) + len(v.keywords) == len(fields) and all(k.arg in fields for k in v.keywords):
+                            continue
+                    if isinstance(v, ast.Call) and isinstance(v.func, ast.Attribute) and v.func.attr == "_replace":
+                        continue
+                    ok = False
+                    continue
+                if isinstance(par, ast.Call) and isinstance(par.func, ast.Attribute) and par.func.attr == "append" and isinstance(par.func.value, ast.Name) and par.func.value.id in lists and isinstance(parents.get(par), ast.Expr):
+                    continue
+                ok = False
+        # classify every occurrence of the list variables
+        for L in lists:
+            for x in ast.walk(fn):
+                if isinstance(x, ast.Name) and x.id == L:
+                    par = parents.get(x)
+                    if isinstance(par, ast.Assign) and x in par.targets and isinstance(par.value, ast.List) and not par.value.elts:
+                        continue
+                    if isinstance(par, ast.Attribute) and par.attr == "append":
+                        continue
+                    if isinstance(par, ast.comprehension) and par.iter is x and isinstance(par.target, ast.Name) and not par.ifs:
+                        lc = parents.get(par)
+                        if isinstance(lc, ast.ListComp) and len(lc.generators) == 1 and isinstance(lc.elt, ast.Attribute) and isinstance(lc.elt.value, ast.Name) and lc.elt.value.id == par.target.id and lc.elt.attr in fields:
+                            continue
+                    ok = False
+        if not ok:
+            continue
+
+        def nm(base, f):
+            return f"{base}__{f}"
+
+        class Rw(ast.NodeTransformer):
+            def visit_FunctionDef(self, node):
+                return self.generic_visit(node) if node is fn else node
+
+            def visit_Attribute(self, node):
+                node = self.generic_visit(node)
+                if isinstance(node.value, ast.Name) and node.value.id == r and node.attr in fields:
+                    return ast.Name(id=nm(r, node.attr), ctx=node.ctx)
+                return node
+
+            def visit_ListComp(self, node):
+                g = node.generators[0] if len(node.generators) == 1 else None
+                if g is not None and isinstance(g.iter, ast.Name) and g.iter.id in lists and isinstance(node.elt, ast.Attribute):
+                    return ast.Name(id=nm(g.iter.id, node.elt.attr), ctx=ast.Load())
+                return self.generic_visit(node)
+
+        def rewrite(stmts):
+            out = []
+            for st in stmts:
+                for fld in ("body", "orelse", "finalbody"):
+                    sub = getattr(st, fld, None)
+                    if isinstance(sub, list) and sub and isinstance(sub[0], ast.stmt) and not isinstance(st, (ast.FunctionDef, ast.ClassDef)):
+                        setattr(st, fld, rewrite(sub))
+                if isinstance(st, ast.Try):
+                    for h in st.handlers:
+                        h.body = rewrite(h.body)
+                if isinstance(st, ast.Assign) and len(st.targets) == 1 and isinstance(st.targets[0], ast.Name):
+                    t, v = st.targets[0].id, st.value
+                    if t == r and isinstance(v, ast.Call) and isinstance(v.func, ast.Name) and v.func.id == nt:
+                        if len(v.args) == 1 and isinstance(v.args[0], ast.Starred):
+                            out.append(ast.Assign(targets=[ast.Tuple(elts=[ast.Name(id=nm(r, f), ctx=ast.Store()) for f in fields], ctx=ast.Store())], value=Rw().visit(v.args[0].value)))
+                        else:
+                            vals = {f: a for f, a in zip(fields, v.args)}
+                            vals.update({k.arg: k.value for k in v.keywords})
+                            for f in fields:
+                                out.append(ast.Assign(targets=[ast.Name(id=nm(r, f), ctx=ast.Store())], value=Rw().visit(vals[f])))
+                        continue
+                    if t == r and isinstance(v, ast.Call) and isinstance(v.func, ast.Attribute) and v.func.attr == "_replace":
+                        for k in v.keywords:
+                            out.append(ast.Assign(targets=[ast.Name(id=nm(r, k.arg), ctx=ast.Store())], value=Rw().visit(k.value)))
+                        continue
+                    if t in lists and isinstance(v, ast.List) and not v.elts:
+                        for f in fields:
+                            out.append(ast.Assign(targets=[ast.Name(id=nm(t, f), ctx=ast.Store())], value=ast.List(elts=[], ctx=ast.Load())))
+                        continue
+                if isinstance(st, ast.Expr) and isinstance(st.value, ast.Call) and isinstance(st.value.func, ast.Attribute) and st.value.func.attr == "append" \
+                        and isinstance(st.value.func.value, ast.Name) and st.value.func.value.id in lists and len(st.value.args) == 1 and isinstance(st.value.args[0], ast.Name) and st.value.args[0].id == r:
+                    L = st.value.func.value.id
+                    for f in fields:
+                        out.append(ast.Expr(value=ast.Call(func=ast.Attribute(value=ast.Name(id=nm(L, f), ctx=ast.Load()), attr="append", ctx=ast.Load()),
+                                                         args=[ast.Name(id=nm(r, f), ctx=ast.Load())], keywords=[])))
+                    continue
+                out.append(Rw().visit(st))
+            return out
+
+        fn.body = rewrite(fn.body)
+        ast.fix_missing_locations(fn)
+        changed = True
+    return changed
+
+
 def _inline_local_closures(fn: ast.FunctionDef) -> bool:
     """A zero-argument local closure with a single returned expression,
 
@@ -717,15 +876,18 @@ def normalize_sources(sources: Dict[str, str], table: Optional[Set[str]] = None)
                     inlined.append(_qual(modname, cls, name))
         # source-level canonical forms that do not depend on new helpers
         canon = False
+        nts = {k: v for k, v in _namedtuple_table(tree).items() if _qual(modname, None, k) not in table}
         for st in tree.body:
             if isinstance(st, ast.FunctionDef):
                 canon |= _canonical_loops(st)
                 canon |= _sink_returns(st)
+                canon |= _scalar_replace_records(st, nts)
             elif isinstance(st, ast.ClassDef):
                 for s2 in st.body:
                     if isinstance(s2, ast.FunctionDef):
                         canon |= _canonical_loops(s2)
                         canon |= _sink_returns(s2)
+                        canon |= _scalar_replace_records(s2, nts)
         if canon:
             changed_any = True
             inlined.append(f"{modname}:<guard-loop / single-exit canonicalisation>")
